@@ -45,13 +45,23 @@ def build_harness(variant="default"):
     feats, tdir = VARIANTS[variant]
     env = dict(os.environ)
     env.update(ENV_OFFLINE)
+    hdir = HARNESS
+    alt = os.environ.get("VERIF_REPO")
+    if alt:
+        # development aid (seeded changes are tried in a scratch worktree without touching /repo): a copy of the
+        # harness whose salsa dependency points at $VERIF_REPO. Registered commands never set this variable.
+        hdir = os.path.join(ROOT, "work", "alt-harness")
+        os.makedirs(hdir, exist_ok=True)
+        subprocess.run(["rsync", "-a", "--delete", "--exclude", "target*", HARNESS + "/", hdir + "/"], check=True)
+        ct = open(os.path.join(hdir, "Cargo.toml")).read().replace('path = "/repo"', f'path = "{alt}"')
+        open(os.path.join(hdir, "Cargo.toml"), "w").write(ct)
     cmd = ["cargo", "build", "--offline", "--no-default-features", "--target-dir", tdir] + feats
     t0 = time.time()
-    p = subprocess.run(cmd, cwd=HARNESS, env=env, stdout=subprocess.PIPE, stderr=subprocess.STDOUT, text=True)
+    p = subprocess.run(cmd, cwd=hdir, env=env, stdout=subprocess.PIPE, stderr=subprocess.STDOUT, text=True)
     if p.returncode != 0:
         log(p.stdout[-4000:])
         raise ToolError("harness build failed")
-    return os.path.join(HARNESS, tdir, "debug", "drive"), time.time() - t0
+    return os.path.join(hdir, tdir, "debug", "drive"), time.time() - t0
 
 
 def run_driver(binary, mode, jobs_path, trace_path, timeout=600, extra_env=None):
